@@ -139,9 +139,7 @@ func Check(c *Case) (res kit.Result) {
 	if c.C > 0 && c.L > c.K {
 		return
 	}
-	if c.C == 0 && c.L > c.K {
-		return
-	}
+	// zero channels with Length > Capacity is admitted: the total length and capacity are both 0
 	if c.Entry == "channelLength" {
 		var got int
 		if p, v := kit.Try(func() { got = signal.ChannelLength(c.N, 0) }); p {
@@ -485,9 +483,11 @@ func FP(c *Case) uint64 {
 // Shapes returns the degenerate allocator shapes up to maxC channels / maxK frames.
 func Shapes(maxC, maxK int) [][3]int {
 	out := [][3]int{{0, 0, 0}}
-	for k := 1; k <= maxK; k++ {
-		for l := 0; l <= k; l++ {
-			out = append(out, [3]int{0, l, k}) // zero channels
+	for k := 0; k <= maxK; k++ {
+		for l := 0; l <= maxK+1; l++ {
+			if k+l > 0 {
+				out = append(out, [3]int{0, l, k}) // zero channels (any length/capacity, also length > capacity: the totals are 0)
+			}
 		}
 	}
 	for c := 1; c <= maxC; c++ {
@@ -506,8 +506,8 @@ func Gen(t *rapid.T) *Case {
 	switch rapid.IntRange(0, 3).Draw(t, "kind") {
 	case 0:
 	case 1:
-		c.K = rapid.IntRange(1, 40).Draw(t, "k")
-		c.L = rapid.IntRange(0, c.K).Draw(t, "l")
+		c.K = rapid.IntRange(0, 40).Draw(t, "k")
+		c.L = rapid.IntRange(0, 300).Draw(t, "l")
 	case 2:
 		c.C = rapid.IntRange(1, 8).Draw(t, "c")
 	default:
